@@ -23,6 +23,7 @@ func init() {
 			{Name: "delete the sleep on the make-certificates error edge", File: "cert/watch.go", Old: "\t\t\tlog.Printf(\"[ERROR] cert: Cannot make certificates: %s\", err)\n\t\t\ttime.Sleep(refresh)\n\t\t\tcontinue", New: "\t\t\tlog.Printf(\"[ERROR] cert: Cannot make certificates: %s\", err)\n\t\t\tcontinue", Expect: "C11.L1"},
 			{Name: "delete the sleep on the load error edge", File: "cert/watch.go", Old: "\t\t\tlog.Printf(\"[ERROR] cert: Cannot load certificates from %s. %s\", path, err)\n\t\t\ttime.Sleep(refresh)\n\t\t\tcontinue", New: "\t\t\tlog.Printf(\"[ERROR] cert: Cannot load certificates from %s. %s\", path, err)\n\t\t\tcontinue", Expect: "C11.L1"},
 			{Name: "consul watcher never advances its index", File: "cert/consul_source.go", Old: "lastValue, lastIndex = value, index", New: "lastValue = value", Expect: "C11.L1"},
+			{Name: "consul certificate watcher error edge without sleep", File: "cert/consul_source.go", Old: "\t\t\tlog.Printf(\"[WARN] cert: Error fetching certificates from %s. %v\", key, err)\n\t\t\ttime.Sleep(time.Second)\n\t\t\tcontinue", New: "\t\t\tlog.Printf(\"[WARN] cert: Error fetching certificates from %s. %v\", key, err)\n\t\t\t_ = time.Second\n\t\t\tcontinue", Expect: "C11.L1"},
 			{Name: "send certs despite the error", File: "cert/watch.go", Old: "\t\t\tlog.Printf(\"[ERROR] cert: Cannot make certificates: %s\", err)\n\t\t\ttime.Sleep(refresh)\n\t\t\tcontinue\n", New: "\t\t\tlog.Printf(\"[ERROR] cert: Cannot make certificates: %s\", err)\n", Expect: "C11.L2"},
 			{Name: "consul source sends despite the error", File: "cert/consul_source.go", Old: "\t\t\t\tlog.Printf(\"[ERROR] cert: Failed to load certificates. %s\", err)\n\t\t\t\tcontinue\n", New: "\t\t\t\tlog.Printf(\"[ERROR] cert: Failed to load certificates. %s\", err)\n", Expect: "C11.L2"},
 			{Name: "remove sort.Strings(n)", File: "cert/load.go", Old: "\tsort.Strings(n)\n", New: "\t_ = sort.Strings\n", Expect: "C11.L3"},
@@ -36,6 +37,7 @@ func runC11(c *Ctx) {
 	runC11A(c)
 	runC11M(c)
 	runLoopPacing(c, "C11.L1", []string{"cert"}, 2)
+	runConsulWatchLoops(c, "C11.L1", []string{"cert"}, 1)
 	runC11L2(c)
 	runC11L3(c)
 	runC11L4(c)
